@@ -1007,6 +1007,7 @@ func c09Base64(c *Ctx) {
 	r.Min("C09.base64url", 5)
 	c09StrictDecode(c)
 	c09AlgTables(c)
+	c09AudKind(c)
 	// key-ID derived kids
 	nKid := 0
 	for _, f := range p.SortedFuncs(core.Product) {
